@@ -8,8 +8,9 @@ pub mod c10;
 pub mod c11;
 pub mod c12;
 pub mod c13;
+pub mod c14;
 pub mod c20;
 
 pub fn all() -> Vec<Spec> {
-    vec![c02::spec(), c03::spec(), c04::spec(), c06::spec(), c10::spec(), c11::spec(), c12::spec(), c13::spec(), c20::spec()]
+    vec![c02::spec(), c03::spec(), c04::spec(), c06::spec(), c10::spec(), c11::spec(), c12::spec(), c13::spec(), c14::spec(), c20::spec()]
 }
